@@ -8,7 +8,7 @@ Definition wf_pool (p : pool) : bool := forallb wf_frame p.
 (* the one premise on user-supplied data (the property's quantifier: "user-supplied columns
    of matching length"): AddColumn gets a column as long as the frame, or the frame is empty.
    Apply needs no premise on the user's function, also for the functions of the menu that
-   return a slice of another length (10, 11): column-wise every column of a well-formed frame
+   return a slice of another length (10-13): column-wise every column of a well-formed frame
    changes length alike (Proof_C01b.wfn_apply_col), row-wise a result is cut to ncols cells
    or the call is an error (Proof_C01b.wf_apply_row); see apply_length_changing_wf below. *)
 Definition op_ok (p : pool) (o : op) : bool :=
@@ -143,4 +143,14 @@ Example apply_length_changing_wf :
   wf_pool [f] = true /\ run_ok O [f] ops = true /\ wf_pool (run O [f] ops) = true
   /\ map nrows (run O [f] ops) = [3; 4; 1; 4]%nat
   /\ fst (step O [f] (OApply 0 10 (Some [1]))) = Err.
+Proof. vm_compute. repeat split. Qed.
+(* the same with the typed slices of another length (12: a shorter []int, 13: a longer []string);
+   row-wise a typed slice is not taken over at all (every cell of the result is nil), so the
+   row-wise calls succeed and keep the number of rows *)
+Example apply_length_changing_typed_wf :
+  let O := {| o_pf := []; o_fmt := []; o_tparse := [] |} in
+  let f := [([97%N], ([97%N], [CI KInt 1; CNil; CNil])); ([98%N], ([98%N], [CS [120%N]; CB true; CNil]))] in
+  let ops := [OApply 0 13 None; OApply 0 12 (Some [0]); OApply 1 13 (Some [1]); OApply 0 12 (Some [1])] in
+  wf_pool [f] = true /\ run_ok O [f] ops = true /\ wf_pool (run O [f] ops) = true
+  /\ map nrows (run O [f] ops) = [3; 4; 1; 4; 3]%nat.
 Proof. vm_compute. repeat split. Qed.
